@@ -355,6 +355,58 @@ def slow_board_case(layer, helper, args, motor_state, prompt_raw, desc):
     return []
 
 
+SESSION = [("pen_raise", (100,)), ("timed_pause", (800,)), ("xy_move", (10, -20, 30)),
+           ("pen_lower", (100,)), ("timed_pause", (5,)), ("query_steps", ()),
+           ("xy_move", (-10, 20, 30))]
+LEGACY_SESSION = [("sendPenUp", (100,)), ("doTimedPause", (800,)), ("doXYMove", (10, -20, 30)),
+                  ("sendPenDown", (100,)), ("doTimedPause", (5,)), ("QueryPenUp", ()),
+                  ("doXYMove", (-10, 20, 30))]
+
+
+def slow_session(layer, stall, length):
+    """One long-lived object / port, `length` helper calls in a row, against a board that
+    answers every request after the same small number of empty reads: the allowance of empty
+    reads is per request, however many requests went before (a plot is tens of thousands of
+    them).  Must put exactly the bytes on the wire that the same session puts against a prompt
+    board, raise nothing and (EBB3) record no error."""
+    mod = _libs()
+    runs = []
+    for delay in (0, stall):
+        chooser, profile = (_Stall(delay), STALL_PROFILE) if delay else (None, QUIET)
+        exc = None
+        if layer == "legacy":
+            core.quiet_legacy_logger()
+            port = FakePort(LegacyBoard(version="2.8.1"), chooser, profile)
+            obj = None
+        else:
+            obj, port, _board = new_object(chooser, profile,
+                                           board=EBB3Board(future=True, nickname="Axi"))
+        done = 0
+        try:
+            for k in range(length):
+                name, args = (LEGACY_SESSION if layer == "legacy" else SESSION)[k % 7]
+                if layer == "legacy":
+                    getattr(mod, name)(port, *args)
+                else:
+                    getattr(obj, name)(*args)
+                done += 1
+        except Exception as err:            # pylint: disable=broad-except
+            exc = err
+        runs.append((list(port.write_attempts), exc, getattr(obj, "err", None), done))
+    (raw_0, exc_0, err_0, _d0), (raw_1, exc_1, err_1, done_1) = runs
+    if exc_0 is not None or err_0 is not None:
+        return []                           # not this family's business (caught elsewhere)
+    if exc_1 is not None or err_1 is not None or raw_1 != raw_0:
+        first = next((i for i, (a, b) in enumerate(zip(raw_0, raw_1)) if a != b),
+                     min(len(raw_0), len(raw_1)))
+        return [f"{layer} session of {length} helper calls on one object against a board that "
+                f"answers every request after {(0, 1, 3)[stall]} empty read(s): {len(raw_1)} "
+                f"requests went out instead of {len(raw_0)} (first difference at request "
+                f"{first}), exception {exc_1!r}, recorded error {err_1!r}, calls completed "
+                f"{done_1}"]
+    return []
+
+
 def _case(layer, helper, args, motor_state=None):
     return {"kind": "text", "layer": layer, "helper": helper, "args": list(args),
             "motor_state": list(motor_state) if motor_state else None}
@@ -442,6 +494,15 @@ def run(ctx):
             for chunk in core.split(arg_list, 8):
                 jobs.append(("ebb3", helper, chunk))
     part.merge(core.fan_out(ctx, _chunk, jobs))
+    for layer in ("legacy", "ebb3"):
+        for stall in (1, 2):
+            for length in (30, 70) + ((400,) if ctx.thorough else ()):
+                for msg in slow_session(layer, stall, length):
+                    part.violation(f"slow_session:{layer}:{stall}:{length}", msg,
+                                   {"kind": "slow_session", "layer": layer, "stall": stall,
+                                    "length": length})
+                part.count("cases")
+                part.count("slow_sessions")
     # the two version-gated helpers of the legacy layer in a row on one port: what the first
     # learnt about the board must not decide whether the second transmits ("and nothing else")
     from .c15 import HISTORY_VERSIONS, check_gate_history   # pylint: disable=import-outside-toplevel
@@ -534,6 +595,8 @@ def replay(case):
     if kind == "gated_pair":
         from .c15 import check_gate_history     # pylint: disable=import-outside-toplevel
         return check_gate_history("same", case["first"], case["second"], case["version"])
+    if kind == "slow_session":
+        return slow_session(case["layer"], case["stall"], case["length"])
     if kind == "table":
         part = core.Part()
         ltab, etab = legacy_table(_CTX), ebb3_table(_CTX)
